@@ -25,6 +25,9 @@ def jobs(ctx, props):
                      'max_workers': 2, 'outcomes': ('success', 'failure'),
                      'revs': ('r1', 'r2'), 'life': True, 'poll': True,
                      'max_life': 3 if quick else 4}))
+    for name, desc, targets, pr, opts in schedcheck.timer_jobs(props, quick):
+        opts = dict(opts, mode='explicit', max_workers=1, outcomes=('success',), revs=('r1',))
+        out.append((name + '/explicit', desc, targets, pr, opts))
     return out
 
 
